@@ -29,6 +29,11 @@ fn main() {
     "listing-ns" => engines::listing::ns_main(&rest),
     "listing-probe" => engines::listing::probe_main(&rest),
     "listing-replay" => engines::listing::replay_main(&rest),
+    "loader" => engines::loader::main(&rest),
+    "loader-replay" => engines::loader::replay_main(&rest),
+    "escape" => engines::escape::main(&rest),
+    "loop" => engines::loop_script::main(&rest),
+    "loop-replay" => engines::loop_script::replay_main(&rest),
     other => {
       eprintln!("unknown engine {}", other);
       2
